@@ -1,7 +1,7 @@
 //! C12: cancel the real `Orderer::next` future at its await points.
 //!
 //! Payload: `<mode> <step> <step> ...`
-//!   mode `direct`: the real `Orderer` over the real in-memory `SqliteStore`; an attempt `k:<n>`
+//!   mode `direct`: the real `Orderer` over the real (file-backed) `SqliteStore`; an attempt `k:<n>`
 //!                  polls a fresh `next()` future by hand (counting waker) and drops it after the
 //!                  n-th poll that returned `Pending`.  Where it was cancelled is observed in the
 //!                  database: `post` = a ready row is flagged `in_queue = FALSE` although the item
@@ -30,7 +30,7 @@ use std::time::{Duration, Instant};
 use p2panda_core::{Hash, LogId, Topic};
 use p2panda_store::operations::OperationStore;
 use p2panda_store::orderer::{OrdererStore, OrdererTestExt};
-use p2panda_store::{SqliteError, SqliteStore, Transaction};
+use p2panda_store::{SqliteError, SqliteStore, SqliteStoreBuilder, Transaction};
 use p2panda_stream::Processor;
 use p2panda_stream::orderer::Orderer;
 
@@ -187,8 +187,11 @@ async fn settle() {
     }
 }
 
-/// How long a future may stay without wake-up before it counts as blocked (waiting for `notified`).
-const STUCK: Duration = Duration::from_millis(150);
+/// How long a future may stay without wake-up before it counts as blocked. Only used as a verdict
+/// where the queue is known to be empty (the future waits for `notified`); otherwise it is a
+/// safety net against hanging.
+const STUCK_EMPTY: Duration = Duration::from_millis(300);
+const STUCK_NEVER: Duration = Duration::from_secs(20);
 
 enum Polled<T> {
     Ready(T),
@@ -200,7 +203,8 @@ enum Polled<T> {
 
 /// Polls `fut` by hand. `budget` = number of `Pending` results after which the future is dropped
 /// (`None`: unlimited); `parked()` is asked after every `Pending`.
-async fn poll_by_hand<F, T>(fut: F, budget: Option<usize>, parked: impl Fn() -> bool) -> (Polled<T>, usize)
+async fn poll_by_hand<F, T>(fut: F, budget: Option<usize>, stuck_after: Duration, parked: impl Fn() -> bool,
+                            waiting: impl Fn() -> bool) -> (Polled<T>, usize)
 where
     F: Future<Output = T>,
 {
@@ -219,6 +223,10 @@ where
                     drop(fut);
                     return (Polled::Dropped, pendings);
                 }
+                if waiting() {
+                    drop(fut);
+                    return (Polled::Stuck, pendings);
+                }
                 if let Some(b) = budget
                     && pendings >= b
                 {
@@ -229,7 +237,7 @@ where
                 let t0 = Instant::now();
                 while cw.0.load(AtomicOrdering::SeqCst) == seen {
                     tokio::time::sleep(Duration::from_micros(200)).await;
-                    if t0.elapsed() > STUCK {
+                    if t0.elapsed() > stuck_after {
                         drop(fut);
                         return (Polled::Stuck, pendings);
                     }
@@ -267,7 +275,24 @@ where
         }
         let a = &attempts[ai];
         ai += 1;
-        let (res, class) = if let Some(ctl) = &ctl {
+        let (res, class) = if let (Some(ctl), Ok(k)) = (&ctl, a.parse::<usize>()) {
+            // wrapper store, but cut after k polls (the natural `Pending` points of the real store):
+            // the wrapper knows inside which call the future was when it was dropped
+            {
+                let mut c = ctl.borrow_mut();
+                c.stop_at = None;
+                c.parked = None;
+                c.last = "lock".to_string();
+            }
+            let ctl3 = ctl.clone();
+            let (res, _) = poll_by_hand(orderer.next(), Some(k), STUCK_NEVER, || false,
+                                        move || ctl3.borrow().last == "notified").await;
+            let class = match &res {
+                Polled::Ready(_) => "done".to_string(),
+                _ => ctl.borrow().last.clone(),
+            };
+            (res, class)
+        } else if let Some(ctl) = &ctl {
             {
                 let mut c = ctl.borrow_mut();
                 c.stop_at = if a == "notified" || a == "none" { None } else { Some(a.clone()) };
@@ -275,7 +300,11 @@ where
                 c.last = "lock".to_string();
             }
             let ctl2 = ctl.clone();
-            let (res, _) = poll_by_hand(orderer.next(), None, move || ctl2.borrow().parked.is_some()).await;
+            let ctl3 = ctl.clone();
+            // the wrapper sees `take_next_ready` answer "nothing": a `Pending` after that is the wait
+            // for a notification
+            let (res, _) = poll_by_hand(orderer.next(), None, STUCK_NEVER, move || ctl2.borrow().parked.is_some(),
+                                        move || ctl3.borrow().last == "notified").await;
             let class = match &res {
                 Polled::Ready(_) => "done".to_string(),
                 Polled::Dropped => ctl.borrow().parked.clone().unwrap_or_else(|| "?".to_string()),
@@ -285,7 +314,9 @@ where
             (res, class)
         } else {
             let k: usize = a.parse().expect("k");
-            let (res, _) = poll_by_hand(orderer.next(), Some(k), || false).await;
+            let (_, queued) = counts(sql).await;
+            let stuck_after = if queued == 0 { STUCK_EMPTY } else { STUCK_NEVER };
+            let (res, _) = poll_by_hand(orderer.next(), Some(k), stuck_after, || false, || false).await;
             let class = match &res {
                 Polled::Ready(_) => "done",
                 Polled::Dropped => "cut",
@@ -310,6 +341,15 @@ where
             if all - queued > returned {
                 returned = all - queued; // the lost item is accounted for; later cuts are judged afresh
             }
+        }
+        if ctl.is_some() && tok == "-" && (class == "commit0" || class == "commit1") {
+            // cut inside `commit`: whether the database had applied it is read off the tables
+            let (all, queued) = counts(sql).await;
+            class = if all - queued > returned { "commit1".to_string() } else { "commit0".to_string() };
+        }
+        if ctl.is_some() && tok == "-" && (class == "commit1" || class == "getop") {
+            let (all, queued) = counts(sql).await;
+            returned = all - queued;
         }
         out.push(format!("{class}={tok}"));
     }
@@ -347,7 +387,35 @@ pub async fn run(tokens: &[&str]) -> String {
     }
     let steps = parse_steps(&step_tokens);
     let graph = OpGraph::build(&steps);
-    let sql = SqliteStore::temporary().await;
+    // A file-backed database: the in-memory one lives in its single connection and would be lost
+    // whenever sqlx closes and re-opens that connection after a query future was dropped.
+    let path = std::env::temp_dir().join(format!(
+        "h_c12_{}_{}.sqlite",
+        std::process::id(),
+        DB_SEQ.fetch_add(1, AtomicOrdering::SeqCst)
+    ));
+    let _ = std::fs::remove_file(&path);
+    let url = format!("sqlite://{}", path.display());
+    let sql = SqliteStoreBuilder::new()
+        .database_url(&url)
+        // one connection, as `SqliteStoreBuilder::memory()`: what the harness reads after a drop is
+        // then serialised behind whatever the dropped future left in flight on that connection
+        .min_connections(1)
+        .max_connections(1)
+        .build()
+        .await
+        .expect("database");
+    let result = run_on(mode, &steps, &attempts, &order, &graph, &sql).await;
+    sql.pool().close().await;
+    for ext in ["", "-wal", "-shm"] {
+        let _ = std::fs::remove_file(format!("{}{}", path.display(), ext));
+    }
+    result
+}
+
+static DB_SEQ: AtomicUsize = AtomicUsize::new(0);
+
+async fn run_on(mode: &str, steps: &[Step], attempts: &[String], order: &[bool], graph: &OpGraph, sql: &SqliteStore) -> String {
     {
         let log_id = Topic::random();
         let permit = sql.begin().await.unwrap();
@@ -359,13 +427,13 @@ pub async fn run(tokens: &[&str]) -> String {
     match mode {
         "direct" => {
             let orderer: Orderer<Op, Hash, SqliteStore> = Orderer::new(sql.clone());
-            run_with(&steps, &attempts, &order, orderer, &sql, &graph, None).await
+            run_with(steps, attempts, order, orderer, sql, graph, None).await
         }
         "wrap" => {
             let ctl = Rc::new(RefCell::new(Ctl::default()));
             let ws = WrapStore { inner: sql.clone(), ctl: ctl.clone() };
             let orderer: Orderer<Op, Hash, WrapStore> = Orderer::new(ws);
-            run_with(&steps, &attempts, &order, orderer, &sql, &graph, Some(ctl)).await
+            run_with(steps, attempts, order, orderer, sql, graph, Some(ctl)).await
         }
         m => format!("ERR mode {m}"),
     }
